@@ -97,9 +97,12 @@ class _Ufunc:
     def __init__(self, name, op):
         self.name, self.op = name, op
 
-    def __call__(self, a, b, **k):
+    def __call__(self, a, b, dtype=None, **k):
         if k:
-            raise AnalysisError(f'np.{self.name} with keyword arguments has no model')
+            raise AnalysisError(f'np.{self.name} with keyword arguments {sorted(k)} has no model')
+        if dtype is not None:
+            r = self(a, b)
+            return r.astype(dtype) if isinstance(r, Arr) else r
         return getattr(as_arr(a), f'__{self.op}__')(b) if not isinstance(a, (int, float, complex)) or isinstance(b, Arr) else getattr(a, f'__{self.op}__')(b)
 
     def outer(self, a, b):
@@ -314,14 +317,44 @@ class FakeNumpy:
         return concat([a, b], axis)
 
     @staticmethod
-    def concatenate(parts, axis=0):
+    def concatenate(parts, axis=0, dtype=None, **kw):
+        if kw:
+            raise AnalysisError(f'np.concatenate with {sorted(kw)} has no model')
         parts = list(parts)
         if all(isinstance(p, (list, tuple)) for p in parts):
             out = []
             for p in parts:
                 out.extend(p)
             return out
-        return concat([as_arr(p) for p in parts], axis)
+        r = concat([as_arr(p) for p in parts], axis)
+        return r if dtype is None else r.astype(dtype)
+
+    @staticmethod
+    def matmul(a, b):
+        return A.matmul(as_arr(a), as_arr(b))
+
+    @staticmethod
+    def ravel(a, order='C'):
+        if order != 'C':
+            raise AnalysisError('np.ravel with a non-C order has no model')
+        return as_arr(a).ravel()
+
+    @staticmethod
+    def dtype(spec):
+        return A.DType(A.dtype_of(spec))
+
+    @staticmethod
+    def block(rows):
+        """np.block of a list (of lists) of arrays with equal ndim: concatenate the innermost lists along the last axis, then along the second last"""
+        def build(x, depth, maxdepth):
+            if isinstance(x, (list, tuple)):
+                parts = [build(y, depth + 1, maxdepth) for y in x]
+                return concat(parts, -(maxdepth - depth))
+            return as_arr(x)
+
+        def nest(x):
+            return 1 + nest(x[0]) if isinstance(x, (list, tuple)) and len(x) else 0
+        return build(rows, 0, nest(rows))
 
     @staticmethod
     def hstack(parts):
@@ -537,9 +570,36 @@ def concat(parts, axis):
         tot = tot + p.shape[ax]
     shape = list(p0.shape)
     shape[ax] = tot
-    legs = list(p0.legs)
-    legs[ax] = _leg(tot, 'concat')
-    r = Arr(shape, legs, A.join_dtype(*[p.dt for p in parts]), None, {'concat': (parts, ax)}, 'concatenate')
+    # a concatenation is block assembly: a zero array of the final shape into which every part is stored at its offset (so that the block-store,
+    # leg-adoption and entry analyses see np.concatenate / np.block / np.stack exactly as they see np.zeros + slice stores)
+    r = FakeNumpy.zeros(shape, dtype={'real': float, 'complex': complex, 'int': int, 'bool': bool}.get(A.join_dtype(*[p.dt for p in parts]), float))
+    r.tags['concat'] = (parts, ax)
+    r.tags['assembled'] = True
+    off = 0
+    for p in parts:
+        n = p.shape[ax]
+        hi = simp(Size.of(off, A.CTX.atoms) + n)
+        if p.tags.get('assembled') and p.tags.get('alloc') == 'zeros':
+            # flatten: the blocks of an assembled part keep their identity
+            for st in p.tags.get('stores', []):
+                sel = []
+                for k_, s_ in enumerate(st['sel']):
+                    if k_ != ax:
+                        sel.append(s_)
+                    elif s_[0] == 'all':
+                        sel.append(('range', off, hi))
+                    elif s_[0] == 'range':
+                        sel.append(('range', simp(Size.of(off, A.CTX.atoms) + s_[1]), simp(Size.of(off, A.CTX.atoms) + s_[2])))
+                    elif s_[0] == 'int' and not isinstance(s_[1], Arr):
+                        sel.append(('int', s_[1] + off if not isinstance(s_[1], int) or not isinstance(off, int) else s_[1] + off))
+                    else:
+                        raise AnalysisError('concatenation of a part assembled through index arrays has no model')
+                idx = tuple(slice(None) if s_[0] == 'all' else (slice(s_[1], s_[2]) if s_[0] == 'range' else s_[1]) for s_ in sel)
+                A.setitem(r, idx, st['value'])
+        elif not (p.tags.get('const') == 'zeros' and not p.tags.get('stores')):
+            idx = tuple(slice(off, hi) if k_ == ax else slice(None) for k_ in range(len(shape)))
+            A.setitem(r, idx, p)
+        off = hi
     return r
 
 
@@ -657,6 +717,14 @@ def qr(a, overwrite_a=False, mode='full', check_finite=True, **k):
         bl = _leg(m, 'qr-full')
         q = Arr([m, m], [a.legs[0], bl], a.dt, None, {'prov': {'qr': uid, 'role': 'q', 'of': a}, 'orth': 'LO'}, 'qr.q')
         r = Arr([m, n], [bl, a.legs[1]], a.dt, None, {'prov': {'qr': uid, 'role': 'r', 'of': a}}, 'qr.r')
+    elif mode == 'r':
+        # scipy.linalg.qr(a, mode='r') returns (R,) only, with the shape of the full factorisation
+        bl = _leg(m, 'qr-full')
+        from . import mx as _mx
+        _mx.reg()[uid] = _mx.of(a)
+        r = Arr([m, n], [bl, a.legs[1]], a.dt, None, {'prov': {'qr': uid, 'role': 'r', 'of': a}, 'qr_full_r': True}, 'qr.r')
+        A.CTX.event('qr', array=a, uid=uid, q=None, r=r)
+        return (r,)
     else:
         raise AnalysisError(f'qr mode {mode!r} has no model')
     A.CTX.event('qr', array=a, uid=uid, q=q, r=r)
